@@ -35,7 +35,7 @@ VOf(t) ==
     [] t.surf = "GetAttachment" -> [meta |-> t.fl.meta]
     [] t.surf = "BlipChanges"   -> [removals |-> t.fl.removals]
     [] t.surf = "BlipRev"       -> [delta |-> t.fl.delta, removals |-> t.fl.removals]
-    [] t.surf = "BlipGetAttachment" -> [during |-> t.fl.during]
+    [] t.surf = "BlipGetAttachment" -> [during |-> t.fl.during, single |-> t.fl.single]
     [] OTHER                    -> [x |-> 0]
 
 RespOf(t) ==
